@@ -60,3 +60,22 @@ Proof. reflexivity. Qed.
 
 Theorem go_MulAff3_eq x y a : go_generate_MulAff3 x y a = mul_aff3 x y a.
 Proof. reflexivity. Qed.
+
+(* ---------- generate.Scale / Concat (a range loop translated as a fold) ---------- *)
+
+Theorem go_Scale2_eq sx sy : go_generate_Scale [sx; sy] = scale2 sx sy.
+Proof. reflexivity. Qed.
+Theorem go_Scale1_eq sxy : go_generate_Scale [sxy] = scale2 sxy sxy.
+Proof. reflexivity. Qed.
+Theorem go_Scale0_eq : go_generate_Scale [] = aff_id.
+Proof. reflexivity. Qed.
+
+Theorem go_Concat_eq affs : go_generate_Concat affs = concat affs.
+Proof.
+  unfold go_generate_Concat, concat, concat_gen.
+  destruct affs as [|a [|b r]].
+  - reflexivity.
+  - reflexivity.
+  - cbn [length]. replace (Z.of_nat (S (S (length r))) =? 0) with false by lia.
+    replace (Z.of_nat (S (S (length r))) =? 1) with false by lia. reflexivity.
+Qed.
